@@ -135,6 +135,9 @@ func bubble(c *explore.Ctx, pc *world.ProducerChain) (out outcome) {
 
 func TestCheck(t *testing.T) {
 	r := vf.Start("C02", "exploration")
+	if r.RunShards(16) { // bubble-heavy: one process per shard of the exploration
+		return
+	}
 	nAbove := vf.Pick(r, 2, 3) // blocks above the genesis block
 	budgets := vf.Pick(r, map[string]int{"dup": 1, "restart": 1}, map[string]int{"dup": 1, "restart": 1})
 	r.Assume = []string{
